@@ -41,6 +41,8 @@ def cases(tier):
     for cmd in SIG.DATA_COMMANDS:
         for n in D.arities(cmd):
             yield ("real", cmd, n)
+    for n in (1, 2, 3):
+        yield ("quiet", n)
     # (kind, n, lo, hi, naming, mode)
     namings = (0,) if tier == "quick" else (0, 1)
     for n in (1, 2, 3, 4):
@@ -369,6 +371,57 @@ def _run_hist(case):
     return tot
 
 
+def _run_quiet(case):
+    """commands that return NOTHING (side-effect-only plug-ins: no declared output, execute() returns None): every DAG on <=3 commands x
+    every non-empty set of commands being of that kind x direct / list references x {API, source}; run(), run() again, every result
+    read twice: every command executes exactly once"""
+    from mpilot.program import Program
+    from ..vlib import graph as VL
+
+    _, n = case
+    names = G.NAMINGS[0]
+    viols, outcomes = [], {}
+    evals = 0
+    sample = None
+    for es in G.dags(n):
+        for kind in "dl":
+            edges = tuple((c, p, kind) for c, p in es)
+            for qmask in range(1, 1 << n):
+                for mode in ("api", "src"):
+                    VL.reset()
+                    cls = lambda i: "Quiet" if qmask >> i & 1 else "Node"
+                    if mode == "src":
+                        text = "\n".join(ln.replace("= Node(", "= %s(" % cls(i), 1) for i, ln in enumerate(G.render(n, edges, names).split("\n")))
+                        p = Program.from_source(text, libraries=LIB)
+                    else:
+                        p = Program(libraries=LIB)
+                        for i in range(n):
+                            p.add_command(getattr(VL, cls(i)), names[i], dict(G.slots_of(n, edges, i, names)))
+                    tag = {"n": n, "edges": edges, "returns_nothing": [names[i] for i in range(n) if qmask >> i & 1], "mode": mode}
+                    sample = tag
+                    evals += 1
+                    try:
+                        p.run()
+                        first = _counts(VL, names[:n])
+                        p.run()
+                        for _ in (1, 2):
+                            for i in range(n):
+                                p.commands[names[i]].result
+                        final = _counts(VL, names[:n])
+                    except Exception as exc:
+                        viols.append(V("C01:quiet:raised:%s" % type(exc).__name__, "program with commands returning nothing raised %r" % (exc,), tag=tag))
+                        continue
+                    bad1 = {k: v for k, v in first.items() if v != 1}
+                    bad2 = {k: v for k, v in final.items() if v != first[k]}
+                    if bad1:
+                        viols.append(V("C01:quiet:run:%s:%s" % ("executed-twice" if max(bad1.values()) > 1 else "not-executed", mode), "after run(): execution counts %r" % (bad1,), tag=tag))
+                    elif bad2:
+                        viols.append(V("C01:quiet:re-executed:%s" % mode, "second run() / reading results executed again: %r" % (bad2,), tag=tag))
+                    k = "quiet:%s" % ("bad" if (bad1 or bad2) else "ok")
+                    outcomes[k] = outcomes.get(k, 0) + 1
+    return {"evals": max(evals, 1), "nontrivial": evals, "judged": evals, "viols": viols[:20], "outcomes": outcomes, "sample": sample, "states": 0, "transitions": 0}
+
+
 REAL_LIBS = ("mpilot.libraries.eems.basic", "mpilot.libraries.eems.fuzzy", "mc.vlib.const")
 
 
@@ -488,6 +541,8 @@ def run(case):
     case = tuple(case)
     if case[0] == "real":
         return _run_real(case)
+    if case[0] == "quiet":
+        return _run_quiet(case)
     if case[0] == "graphs":
         return _run_graphs(case)
     return _run_hist(case)
